@@ -151,7 +151,7 @@ func cmdCheck(args []string) int {
 	var fcs []*FuncContract
 	pkgs := map[string]bool{}
 	for _, fc := range cs.Funcs {
-		if fc.Tags[prop] && !fc.External && !fc.Flags["trusted"] && !isInterfaceContract(fc) {
+		if fc.Tags[prop] && !fc.External && !fc.Flags["trusted"] && !isInterfaceContract(fc) && fc.Models == "" {
 			fcs = append(fcs, fc)
 			pkgs[fc.Pkg] = true
 		}
@@ -281,6 +281,13 @@ func cmdCheck(args []string) int {
 		j.o.Status = "proved"
 		preps = append(preps, p)
 	}
+	known := loadKnownFindings()
+	knownName := map[string]bool{}
+	for _, kf := range known {
+		if kf.Kind == "finding" && kf.Property == prop {
+			knownName[kf.Obligation] = true
+		}
+	}
 	var solverSeconds float64
 	var mu sync.Mutex
 	// phase 1: plain queries with a short limit; phase 2: the rest raced together with their ground instantiation
@@ -318,10 +325,21 @@ func cmdCheck(args []string) int {
 				defer wg.Done()
 				defer func() { <-sem }()
 				to := timeoutS
-				if p.job.expectSat {
-					to = 10
+				if phase == 2 && knownName[p.job.o.Name] {
+					// a listed finding is expected to fail: no long attempt
+					if p.job.o.Status == "proved" {
+						p.job.o.Status = "unknown"
+					}
+					return
 				}
-				if phase == 1 && to > 3 {
+				if p.job.expectSat {
+					// vacuity guards: one short attempt (a quantified query that is satisfiable is often `unknown`)
+					if phase == 2 {
+						return
+					}
+					to = 4
+				}
+				if phase == 1 && to > 3 && !p.job.expectSat {
 					to = 3
 				}
 				o := p.job.o
@@ -333,7 +351,11 @@ func cmdCheck(args []string) int {
 					if phase == 2 {
 						g = grounds[p][k]
 					}
+					t0 := time.Now()
 					r := runSolvers2(p.scripts[k], g, p.paths[k], to, *tier == "thorough" && !p.job.expectSat && phase == 2, seed)
+					if *verbose && time.Since(t0).Seconds() > 5 {
+						fmt.Printf("  wall %.1fs phase %d %s conjunct %d -> %s (%s)\n", time.Since(t0).Seconds(), phase, o.Name, k, r.Status, r.Backend)
+					}
 					o.Seconds += r.Seconds
 					if r.Backend != "" {
 						o.Backend = r.Backend
@@ -362,12 +384,14 @@ func cmdCheck(args []string) int {
 			}(p)
 		}
 		wg.Wait()
+		if *verbose {
+			fmt.Printf("  phase %d done at %.1fs\n", phase, time.Since(start).Seconds())
+		}
 	}
 	var wg sync.WaitGroup
 	wg.Wait()
 
 	// interpret
-	known := loadKnownFindings()
 	isKnown := func(name string) *KnownFinding {
 		for i := range known {
 			if known[i].Kind == "finding" && known[i].Property == prop && known[i].Obligation == name {
